@@ -38,7 +38,13 @@ def main():
         checks = [meta["property"]]
     out = {"seed": d, "property": meta["property"], "time": time.strftime("%F %T")}
     head = sh("git -C /repo rev-parse HEAD").stdout.strip()
-    sh("git -C %s checkout -q --detach %s && git -C %s checkout -- . && git -C %s clean -fdq -e _build" % (WT, head, WT, WT))
+    r = sh("git -C %s checkout -q --detach %s && git -C %s checkout -- . && git -C %s clean -fdq -e _build" % (WT, head, WT, WT))
+    out["repo_head"] = head
+    if r.returncode != 0 or sh("git -C %s rev-parse HEAD" % WT).stdout.strip() != head:
+        out["error"] = "could not check out /repo's HEAD in the worktree: " + r.stdout[-400:]
+        json.dump(out, open(os.path.join(d, "verify.json"), "w"), indent=1)
+        print(json.dumps(out, indent=1))
+        return 1
     r = sh("git -C %s apply --whitespace=nowarn %s" % (WT, os.path.join(d, "patch.diff")))
     out["applies"] = r.returncode == 0
     if r.returncode != 0:
